@@ -200,7 +200,11 @@ func (l *linkedBuffer) Reserve(size int) ([]byte, error) {
 	}
 
 	// 3. alloc a new slice
-	buf, err := l.bufferManager.allocShmBuffer(uint32(size))
+	var buf *bufferSlice
+	err = ErrNoMoreBuffer
+	if !l.closedForWrite() {
+		buf, err = l.bufferManager.allocShmBuffer(uint32(size))
+	}
 	if err == nil {
 		//todo optimized only release the middle node
 		l.sliceList.pushBack(buf)
@@ -491,15 +495,25 @@ func (l *linkedBuffer) readNextSlice() {
 	l.currentPinned = false
 }
 
+// closedForWrite reports whether the buffer belongs to a stream that has been closed. Close has already
+// recycled the stream's buffers and nothing written afterwards is ever sent (Flush recycles it and returns
+// ErrStreamClosed) - or ever recycled, if the user does not flush. Such writes must not take share memory.
+func (l *linkedBuffer) closedForWrite() bool {
+	return l.stream != nil && l.stream.getStreamState() == uint32(streamClosed)
+}
+
 func (l *linkedBuffer) alloc(size uint32) {
 	remain := int64(size)
-	buf, err := l.bufferManager.allocShmBuffer(size)
-	if err == nil {
-		l.sliceList.pushBack(buf)
-		return
+	closed := l.closedForWrite()
+	if !closed {
+		buf, err := l.bufferManager.allocShmBuffer(size)
+		if err == nil {
+			l.sliceList.pushBack(buf)
+			return
+		}
+		allocSize := l.bufferManager.allocShmBuffers(l.sliceList, size)
+		remain -= allocSize
 	}
-	allocSize := l.bufferManager.allocShmBuffers(l.sliceList, size)
-	remain -= allocSize
 	// fallback. alloc memory buffer (not shm)
 	if remain > 0 {
 		if remain < defaultSingleBufferSize {
@@ -508,7 +522,7 @@ func (l *linkedBuffer) alloc(size uint32) {
 		l.sliceList.pushBack(newBufferSlice(nil, make([]byte, remain), 0, false))
 		l.isFromShm = false
 		// in unit test, l.stream maybe is nil
-		if l.stream != nil {
+		if l.stream != nil && !closed {
 			atomic.AddUint64(&l.stream.session.stats.allocShmErrorCount, 1)
 		}
 	}
